@@ -301,10 +301,11 @@ def judge_table(ctx: Ctx, an: Any, scenes: List[List[Any]]) -> None:
 
 
 def judge_status(ctx: Ctx, frames: List[Any], infos: List[Any]) -> None:
+    """One record per (ground truth, evaluated frame of the list). Frame numbers may repeat inside a list (several
+    recordings pooled, a frame evaluated twice): records are then counted with their multiplicity."""
     tap = "get_object_status"
     ctx.count("get_object_status.judged")
-    exp: Dict[str, Dict[int, str]] = {}
-    dup = False
+    exp: Dict[str, List[Tuple[int, str]]] = {}
     for fr in frames:
         fn = int(fr.frame_name)
         pf = fr.pass_fail_result
@@ -319,11 +320,9 @@ def judge_status(ctx: Ctx, frames: List[Any], infos: List[Any]) -> None:
         for g in pf.fn_objects:
             per_frame[g.uuid] = "FN"
         for u, st in per_frame.items():
-            if fn in exp.setdefault(u, {}):
-                dup = True  # the same frame number evaluated twice in the list: tallies legitimately repeat
-            exp[u][fn] = st
-    if dup:
-        return
+            exp.setdefault(u, []).append((fn, st))
+    if len({fr.frame_name for fr in frames}) < len(frames):
+        ctx.count("get_object_status.lists_with_repeated_frame_numbers")
     got = {i.uuid: i for i in infos}
     info = dict(n_frames=len(frames), n_gt=len(exp))
     ctx.check(set(got) == set(exp) and len(infos) == len(got), "C19/status_tally_objects_differ_from_ground_truths", dict(info, got=sorted(got)[:8], expected=sorted(exp)[:8]), tap)
@@ -331,10 +330,10 @@ def judge_status(ctx: Ctx, frames: List[Any], infos: List[Any]) -> None:
         e = exp.get(u)
         if e is None:
             continue
-        ctx.check(sorted(st.total_frame_nums) == sorted(e), "C19/ground_truth_not_recorded_once_per_frame", dict(info, uuid=u, recorded=sorted(st.total_frame_nums), expected=sorted(e), tp=st.tp_frame_nums, fp=st.fp_frame_nums, tn=st.tn_frame_nums, fn=st.fn_frame_nums), tap)
+        ctx.check(sorted(st.total_frame_nums) == sorted(k for k, _ in e), "C19/ground_truth_not_recorded_once_per_frame", dict(info, uuid=u, recorded=sorted(st.total_frame_nums), expected=sorted(k for k, _ in e), tp=st.tp_frame_nums, fp=st.fp_frame_nums, tn=st.tn_frame_nums, fn=st.fn_frame_nums), tap)
         by = {"TP": st.tp_frame_nums, "FP": st.fp_frame_nums, "TN": st.tn_frame_nums, "FN": st.fn_frame_nums}
         for name, lst in by.items():
-            ctx.check(sorted(set(lst)) == sorted(k for k, v in e.items() if v == name), "C19/status_tally_differs_from_frame_status", dict(info, uuid=u, status=name, recorded=sorted(lst), expected=sorted(k for k, v in e.items() if v == name)), tap)
+            ctx.check(sorted(lst) == sorted(k for k, v in e if v == name), "C19/status_tally_differs_from_frame_status", dict(info, uuid=u, status=name, recorded=sorted(lst), expected=sorted(k for k, v in e if v == name)), tap)
         rates = [r.rate for r in st.get_status_rates()]
         ctx.check(all(math.isinf(x) or -1e-12 <= x <= 1 + 1e-12 for x in rates), "C19/rate_outside_unit_interval", dict(info, uuid=u, rates=rates), tap)
 
@@ -426,8 +425,9 @@ def run(ctx: Ctx) -> None:
                     ctx.count("C19.read_only_views_used")
                     judge_table(ctx, an, scenes_)  # the table must still be the tabulation of the frame results
                     for frames in scenes_:
-                        if len({fr.frame_name for fr in frames}) == len(frames):
-                            pfr_mod.get_object_status(frames)
+                        pfr_mod.get_object_status(frames)
+                    if len(scenes_) >= 2:
+                        pfr_mod.get_object_status([fr for frames in scenes_ for fr in frames])  # several recordings pooled
                     # ---- the same frame results through the pickle entry point, after a clear(): same table
                     if idx % 2 == 0:
                         import pickle
